@@ -27,6 +27,16 @@ MANIFEST = {
 }
 
 
+def _inlined_module(js):
+    """the inlined view (file-local helpers inlined into their callers) of a lowered module"""
+    import os
+    from . import ir as _ir
+    out = js[:-5] + ".inlined.json"
+    if not os.path.exists(out):
+        repo.run([repo.IRDUMP, "--inline-internal", os.path.join(os.path.dirname(js), "linked.opt.ll"), out])
+    return _ir.Module.load(out)
+
+
 def run(rep, tier):
     rep.explanation = "Mode-level symbolic comparison (av/sponge.py) of the KDFs; guard analysis of the HKDF limit."
     rep.undecided = "PBKDF2 iteration counts above 3; lengths beyond the enumerated shapes"
@@ -77,7 +87,7 @@ def run(rep, tier):
     from . import widths
     rep.rule("C05.D2", "length arithmetic keeps the full width of size_t (no 32-bit mask or unguarded narrowing before control/addressing)")
     for js, cname, layout, maxs, units in prep:
-        widths.rule(rep, "C05.D2", modes.load_module(js), cname, files=("/src/kdf/", "/src/password/", "/src/mac/"))
+        widths.rule(rep, "C05.D2", _inlined_module(js), cname, files=("/src/kdf/", "/src/password/", "/src/mac/"), inlined=True)
     widths.control(rep, "C05.D2")
     for d in modecheck.run_cases("C05", rid, tier, cases, None):
         rep.merge(d)
